@@ -177,6 +177,7 @@ func Main(id, level string, run func(c *Ctx), replay ReplayFunc) {
 		os.Exit(2)
 	}
 	c.Quick = c.Tier == "quick"
+	theCtx = c
 	if p := os.Getenv("VERIF_HEAPPROF"); p != "" { // maintenance: a heap profile every 20 s
 		go func() {
 			for i := 0; ; i++ {
@@ -311,12 +312,41 @@ func Parallel(n int, fn func(shard int)) {
 				if s >= n {
 					return
 				}
-				fn(s)
+				safeShard(fn, s)
 				inflight.Delete(s)
 			}
 		}()
 	}
 	wg.Wait()
+}
+
+// theCtx is the context of the running check (set by Main); safeShard reports through it.
+var theCtx *Ctx
+
+// safeShard runs one shard; a panic that escapes it - the code under test panicked where the harness has
+// no guard of its own - is a verdict on the case the shard had announced (Doing), not a crash of the
+// harness.  The rest of the shard is abandoned and the run is marked non-exhaustive.
+func safeShard(fn func(int), s int) {
+	defer func() {
+		r := recover()
+		if r == nil {
+			return
+		}
+		if theCtx == nil {
+			panic(r)
+		}
+		var in interface{} = fmt.Sprintf("shard %d (no case announced)", s)
+		if d, ok := inflight.Load(s); ok {
+			if dd, ok := d.(doing); ok && dd.input != nil {
+				in = dd.input
+			}
+		}
+		buf := make([]byte, 2048)
+		buf = buf[:runtime.Stack(buf, false)]
+		theCtx.Fail("panic", in, "the code under test panicked: %v\n%s", r, buf)
+		theCtx.NotExhaustive(fmt.Sprintf("shard %d was abandoned after a panic", s))
+	}()
+	fn(s)
 }
 
 // Eval counts one evaluated case.
